@@ -698,7 +698,7 @@ func c05workers(c *Ctx) {
 					continue
 				}
 				x, y, op := e.Cond.X, e.Cond.Y, e.Cond.Op
-				if p.Abs(x).K == px.ConstV {
+				if isConstSym(x) {
 					x, y, op = y, x, flip(op)
 				}
 				if x.Strip(false) == st.Val.Strip(false) && p.Abs(y).K == px.ConstV && constant.Compare(p.Abs(y).C, token.EQL, minW) {
